@@ -554,7 +554,6 @@ func checkC02(res *Result) {
 	res.Trusted = []string{"go/types, go/ssa (x/tools v0.29.0)", "e1_effects.go, e2_facts.go, e4_flow.go, e9_errflow.go"}
 }
 
-
 // isRemovalOf: predicate for instructions that remove the element at the loop
 // index idx from the container (Remove(idx) or append(x[:idx], x[idx+1:]...)).
 func isRemovalOf(idx *ssa.Phi) func(ssa.Instruction) bool {
@@ -670,7 +669,6 @@ func everyLapProgresses(idx *ssa.Phi, loop map[*ssa.BasicBlock]bool, isRemoval f
 	}
 	return true, ""
 }
-
 
 // depthLimitReached: at ins, on every path, the recursion guard is known to
 // have fired: maxDepth > 0  ∧  depth >= maxDepth.
